@@ -93,7 +93,7 @@ NewT(S, shape, ctor) ==
                  ELSE NewCells(shape, start, ord)
         a     == AllocL(S, init, IF ctor = "Fconv" THEN "l" ELSE "b")
         t     == [shape |-> shape, cells |-> cells, view |-> FALSE, pend |-> NoPend,
-                  ord |-> ord, al |-> Len(S.allocs) + 1]
+                  ord |-> ord, al |-> Len(S.allocs) + 1, wide |-> FALSE]
     IN OkH(AddLive(a.S, t), NewH(S))
 
 (***************************************************************************)
@@ -118,14 +118,24 @@ SliceT(S, h, sls) ==
     LET t == S.live[h]
     IN IF SliceBad(t.shape, sls) THEN Err(S)
        ELSE IF SliceOpen(t.shape, sls) THEN Free(S)
-       ELSE LET v == [shape |-> SliceShape(t.shape, sls),
+       ELSE LET (* `wide`: the library keeps a storage window for the view that is wider than the span
+                   of its elements (stepped ranges do not tighten it).  Not a Level-1 notion; it is
+                   tracked only to name the circumstances of a listed finding. *)
+                untight == \E i \in 1..Len(sls) : sls[i][1] = 2 /\ sls[i][4] > 1 /\
+                              (Min2(sls[i][3], t.shape[i]) - sls[i][2] - 1) % sls[i][4] # 0
+                v == [shape |-> SliceShape(t.shape, sls),
                       cells |-> SliceCells(t.shape, t.cells, sls),
-                      view  |-> TRUE, pend |-> NoPend, ord |-> t.ord, al |-> t.al]
+                      view  |-> TRUE, pend |-> NoPend, ord |-> t.ord, al |-> t.al,
+                      wide  |-> t.wide \/ untight]
+                (* circumstances of a listed finding: a one-element view whose storage window is wider *)
+                wide == Prod(SliceFullShape(t.shape, sls)) = 1 /\
+                        (t.wide \/ \E i \in 1..Len(sls) : SlSpan(sls[i], t.shape[i]) > 1)
             IN Out(AddLive(S, v),
                    Res("ok", FALSE, NewH(S), <<>>,
                        [full |-> SliceFullShape(t.shape, sls),
                         drop |-> SliceDropOK(t.shape, sls),
-                        shape |-> v.shape]))
+                        shape |-> v.shape,
+                        tags |-> IF wide THEN {"one-element-view-wide-window"} ELSE {}]))
 
 (***************************************************************************)
 (* Transposition                                                           *)
@@ -201,7 +211,7 @@ SafeTT(S, h, p0) ==
                        cells |-> IF id THEN c.cells ELSE TransCells(t.shape, c.cells, p),
                        view  |-> FALSE,
                        pend  |-> <<[shape |-> t.shape, cells |-> c.cells, perm |-> p]>>,
-                       ord   |-> t.ord, al |-> c.al]
+                       ord   |-> t.ord, al |-> c.al, wide |-> FALSE]
             IN OkH(AddLive(c.S, n), NewH(S))
 
 RollAxisT(S, h, axis, start, safe) ==
@@ -222,7 +232,7 @@ MaterializeT(S, h) ==
     IN IF ~t.view /\ t.pend = NoPend THEN OkH(S, h)
        ELSE LET c == FreshCopy(S, t)
             IN OkH(AddLive(c.S, [shape |-> t.shape, cells |-> c.cells, view |-> FALSE,
-                                 pend |-> NoPend, ord |-> t.ord, al |-> c.al]), NewH(S))
+                                 pend |-> NoPend, ord |-> t.ord, al |-> c.al, wide |-> FALSE]), NewH(S))
 
 CloneT(S, h) ==
     LET t  == S.live[h]
@@ -232,7 +242,7 @@ CloneT(S, h) ==
         pd == IF t.pend = NoPend THEN NoPend
               ELSE <<[shape |-> t.pend[1].shape, cells |-> mp(t.pend[1].cells), perm |-> t.pend[1].perm]>>
     IN OkH(AddLive(c.S, [shape |-> t.shape, cells |-> c.cells, view |-> FALSE,
-                         pend |-> pd, ord |-> t.ord, al |-> c.al]), NewH(S))
+                         pend |-> pd, ord |-> t.ord, al |-> c.al, wide |-> FALSE]), NewH(S))
 
 (* Copy(dst, src): element k of dst := element k of src (logical row-major) *)
 CopyT(S, d, s) ==
@@ -258,6 +268,35 @@ UnsafeBinKT(S, h, f, v) ==
     LET t == S.live[h]
     IN Out(WriteCells(S, t.cells, [k \in 1..Len(t.cells) |-> <<"bin", f, S.heap[t.cells[k]], v>>]),
            Res("ok", TRUE, h, <<>>, <<>>))
+
+(* SetAt over every coordinate: element k := constant k *)
+SetSweepT(S, h) ==
+    LET t == S.live[h]
+    IN OkH(WriteCells(S, t.cells, [k \in 1..Len(t.cells) |-> K(k)]), 0)
+
+(* in-place binary with a tensor operand (the unsafe option): a[c] := f(a[c], b[c]) *)
+UnsafeBinTT(S, h, f, o) ==
+    LET t == S.live[h] u == S.live[o]
+    IN IF t.shape # u.shape THEN Free(S)
+       ELSE Out(WriteCells(S, t.cells, [k \in 1..Len(t.cells) |-> <<"bin", f, S.heap[t.cells[k]], S.heap[u.cells[k]]>>]),
+                Res("ok", TRUE, h, <<>>, <<>>))
+
+(* the CopyTo method: like Copy(dst := other, src := t); documented to refuse views *)
+CopyToT(S, s, d) ==
+    LET td == S.live[d] ts == S.live[s]
+        (* documented as a copy of the UNDERLYING data that ignores the destination's metadata:
+           storage sequence to storage sequence *)
+        Sto(t) == IF t.pend # NoPend THEN FlatOrder(t.pend[1].shape, t.pend[1].cells, t.ord)
+                  ELSE FlatOrder(t.shape, t.cells, t.ord)
+    IN IF d = s THEN OkH(S, 0)
+       ELSE IF Len(td.cells) # Len(ts.cells) THEN Err(S)
+       ELSE Out(WriteCells(S, Sto(td), ValuesOf(S, Sto(ts))),
+                Res("ok", td.view \/ ts.view, 0, <<>>, <<>>))
+
+(* conversions to native Go slices / gonum matrices: the same elements in logical order *)
+ExportT(S, h, kind) ==
+    LET t == S.live[h]
+    IN Out(S, Res("ok", TRUE, 0, <<>>, [cells |-> t.cells, shape |-> t.shape]))
 
 (***************************************************************************)
 (* Reshape: equal size only; may refuse a view; follows the tensor's own   *)
@@ -293,6 +332,10 @@ Apply(S, op) ==
       [] op.k = "UnsafeUn"    -> UnsafeUnT(S, op.h, op.a[1])
       [] op.k = "UnsafeBinK"  -> UnsafeBinKT(S, op.h, op.a[1], K(op.a[2]))
       [] op.k = "Reshape"     -> ReshapeT(S, op.h, op.a)
+      [] op.k = "SetSweep"    -> SetSweepT(S, op.h)
+      [] op.k = "UnsafeBinT"  -> UnsafeBinTT(S, op.h, op.a[1], op.a[2])
+      [] op.k = "CopyTo"      -> CopyToT(S, op.h, op.a[1])
+      [] op.k = "Export"      -> ExportT(S, op.h, op.a[1])
 
 Op(k, h, a) == [k |-> k, h |-> h, a |-> a]
 
